@@ -216,7 +216,45 @@ def rule_aux_in_commitment(ctx: Ctx, rep: Report) -> None:
                f"the committing nonce input is `{norm(c.args[0])[:60]}`: {'aux' if 'aux' not in names else 'the commitment'} does not enter it")
 
 
+def rule_length_dispatch_(ctx: Ctx, rep: Report) -> None:
+    """C03.length_dispatch: a branch on the length of an admitted key names one of the admitted sizes (see sigcommon.rule_length_dispatch)."""
+    from rules.sigcommon import rule_length_dispatch
+    rule_length_dispatch(ctx, rep, "C03.length_dispatch", ("btclib.ecc.ssa", "btclib.ecc.bip340_nonce", "btclib.curves"), 1)
+
+
+def rule_nonce_preimage(ctx: Ctx, rep: Report) -> None:
+    """C03.nonce_preimage: BIP340's nonce preimage is t || bytes(P) || m: the
+    masked key, the public key's x at the width of a field element (ec.p_size,
+    32 on secp256k1), and the message, in this order. The three parts are read
+    off the join in `_bip340_nonce_`; the x-coordinate is recognised as the
+    parameter that is neither the message, the key that is xor-ed, nor aux."""
+    rule = "C03.nonce_preimage"
+    fi = ctx.func("btclib.ecc.bip340_nonce._bip340_nonce_")
+    joins = [c for c in own_nodes(fi.node) if isinstance(c, ast.Call) and isinstance(c.func, ast.Attribute) and c.func.attr == "join" and c.args and isinstance(c.args[0], (ast.List, ast.Tuple))]
+    if len(joins) != 1 or len(joins[0].args[0].elts) != 3:
+        rep.unknown(rule, "shape", fi.where(), "the three-part join was not found")
+        return
+    p0, p1, p2 = joins[0].args[0].elts
+    params = fi.params()
+
+    def tb(e):
+        return (e.func.value, e.args[0] if e.args else next((k.value for k in e.keywords if k.arg == "length"), None)) \
+            if isinstance(e, ast.Call) and isinstance(e.func, ast.Attribute) and e.func.attr == "to_bytes" else (None, None)
+    r1, w1 = tb(p1)
+    ok1 = isinstance(r1, ast.Name) and r1.id in params and w1 is not None and str(norm(w1)).replace(" ", "") == f"{params[4]}.p_size"
+    rep.ob(rule, "bytes(P)", ok1, fi.where(p1), f"the second part is `{norm(p1)[:60]}`" + ("" if ok1 else ": the x-coordinate of the public key is not written at the field width ec.p_size"))
+    r0, w0 = tb(p0)
+    from sa.canon import expand
+    ok0 = r0 is not None and "^" in str(expand(fi, r0))
+    rep.ob(rule, "t", ok0, fi.where(p0), f"the first part is the xor-masked key `{norm(p0)[:50]}`")
+    ok2 = isinstance(p2, ast.Name) and p2.id == params[0]
+    rep.ob(rule, "m", ok2, fi.where(p2), f"the third part is the message `{norm(p2)}`")
+    rep.floor(rule, 3)
+
+
 RULES = [
+    ("C03.length_dispatch", rule_length_dispatch_),
+    ("C03.nonce_preimage", rule_nonce_preimage),
     ("C03.aux_in_commitment", rule_aux_in_commitment),
     ("C03.terms_multiset", rule_terms_multiset),
     ("C03.params_forwarded", rule_params_forwarded_),
